@@ -58,6 +58,6 @@ Definition cfg_order : config :=
 (* a well-formed image inside D that exercises every rule the implementation gets right *)
 Definition w_good : image :=
   img [ [dir "etc" 493; reg "etc/passwd" 420 "root"; dir "usr" 493; dir "usr/lib" 493; reg "usr/lib/a.so" 493 "v1";
-         sym "lib" "usr/lib"; dir "tmp" 511; reg "tmp/x" 384 "scratch"];
-        [dir "usr" 493; dir "usr/lib" 493; reg "usr/lib/a.so" 493 "v2"; dir "tmp" 511; wh "tmp/.wh.x"; reg "tmp/y" 420 "y"];
-        [dir "etc" 448; wh "etc/.wh.passwd"; reg "etc/shadow" 384 "s"; dir "tmp" 511; reg "./tmp/y" 420 "y2"] ].
+         sym "lib" "usr/lib"; dir "tmp" 1023; reg "tmp/x" 384 "scratch"];
+        [dir "usr" 493; dir "usr/lib" 493; reg "usr/lib/a.so" 2541 "v2"; dir "tmp" 1023; wh "tmp/.wh.x"; reg "tmp/y" 420 "y"];
+        [dir "etc" 448; wh "etc/.wh.passwd"; reg "etc/shadow" 384 "s"; dir "tmp" 1023; reg "./tmp/y" 420 "y2"] ].
